@@ -343,6 +343,112 @@ def prepSteps (c : Cfg) (s : Store) (txn : List Edit) : List FsOp :=
 def commitSteps (c : Cfg) (s : Store) (txn : List Edit) : List FsOp :=
   (txnSteps c s txn).drop (prepSteps c s txn).length
 
+/-! ### the packed-refs update modes (correspondence only; the theorems are about `txnSteps`) -/
+
+/-- `PackedRefs::{DeletionsOnly, DeletionsAndNonSymbolicUpdates,
+DeletionsAndNonSymbolicUpdatesRemoveLooseSourceReference}` -/
+inductive Mode where
+  | d | u | r
+  deriving DecidableEq, Repr
+
+def Edit.isObj : Edit → Bool
+  | .update _ (.id _) => true
+  | _ => false
+
+/-- the packed transaction exists: always when an object update goes to packed-refs (the file is
+created if need be), else as in the default mode -/
+def Store.hasGlobalLockM (s : Store) (m : Mode) (txn : List Edit) : Bool :=
+  match m with
+  | .d => s.hasGlobalLock txn
+  | _ => txn.any Edit.isObj || s.hasGlobalLock txn
+
+def prepEditM (m : Mode) (c : Cfg) (global : Bool) (g : G) : Edit → List FsOp
+  | .update n (.id h) => if m = .r && global then [] else prepEdit c global g (.update n (.id h))
+  | e => prepEdit c global g e
+
+def prepEditsM (m : Mode) (c : Cfg) (global : Bool) : G → List Edit → List FsOp
+  | _, [] => []
+  | g, e :: es =>
+    let ops := prepEditM m c global g e
+    ops ++ prepEditsM m c global (g.steps ops) es
+
+def commitUpdateM (m : Mode) (c : Cfg) (s : Store) (g : G) : Edit → List FsOp
+  | .update n (.id h) => reflogOps c s g n h ++ (if m = .r then [] else [.rename (lockPath n) n])
+  | e => commitUpdate c s g e
+
+def commitUpdatesM (m : Mode) (c : Cfg) (s : Store) : G → List Edit → List FsOp
+  | _, [] => []
+  | g, e :: es =>
+    let ops := commitUpdateM m c s g e
+    ops ++ commitUpdatesM m c s (g.steps ops) es
+
+/-- `Ord for BStr` as `<` -/
+def ltBytes : Bytes → Bytes → Bool
+  | [], [] => false
+  | [], _ :: _ => true
+  | _ :: _, [] => false
+  | a :: as, b :: bs => if a.toNat < b.toNat then true else if b.toNat < a.toNat then false else ltBytes as bs
+
+def insertRec (r : Name × Bytes) : List (Name × Bytes) → List (Name × Bytes)
+  | [] => [r]
+  | x :: xs => if ltBytes r.1 x.1 then r :: x :: xs else x :: insertRec r xs
+
+def objUpdates (txn : List Edit) : List (Name × Bytes) :=
+  txn.filterMap fun e => match e with
+    | .update n (.id h) => some (n, h)
+    | _ => none
+
+def deleteNames (txn : List Edit) : List Name :=
+  txn.filterMap fun e => match e with
+    | .delete n => some n
+    | _ => none
+
+/-- the records `packed::Transaction::commit` writes: the old ones that are neither deleted nor
+updated, merged with the updates, in name order -/
+def Store.remainingM (s : Store) (m : Mode) (txn : List Edit) : List (Name × Bytes) :=
+  let ups := if m = .d then [] else objUpdates txn
+  let kept := (s.packed.getD []).filter fun r =>
+    !(deleteNames txn).contains r.1 && !(ups.map (·.1)).contains r.1
+  ups.foldl (fun acc u => insertRec u acc) kept
+
+def packedCommitM (m : Mode) (c : Cfg) (s : Store) (txn : List Edit) : List FsOp :=
+  if !s.hasGlobalLockM m txn then [] else
+  let ups := if m = .d then [] else objUpdates txn
+  -- deletions of names that are not in the buffer are dropped in `prepare` — if there is a buffer
+  let dels := if s.packed.isSome then s.packedDeletions txn else deleteNames txn
+  if ups.isEmpty && dels.isEmpty then [.unlink (lockPath packedPath)] else
+  let rest := s.remainingM m txn
+  writeOps c.chunk (lockPath packedPath) (renderPacked rest) ++
+    (if rest.isEmpty then [.unlink packedPath, .unlink (lockPath packedPath)]
+     else [.rename (lockPath packedPath) packedPath])
+
+def looseDeleteM (m : Mode) (s : Store) (global : Bool) (g : G) : Edit → List FsOp
+  | .update n (.id _) => if m = .r && (s.looseOf n).isSome then [.unlink n] else []
+  | e => looseDelete s global g e
+
+def looseDeletesM (m : Mode) (s : Store) (global : Bool) : G → List Edit → List FsOp
+  | _, [] => []
+  | g, e :: es =>
+    let ops := looseDeleteM m s global g e
+    ops ++ looseDeletesM m s global (g.steps ops) es
+
+/-- the steps in any of the three modes -/
+def txnStepsM (m : Mode) (c : Cfg) (s : Store) (txn : List Edit) : List FsOp :=
+  let global := s.hasGlobalLockM m txn
+  let g0 := s.g0
+  let p0 := if global then [FsOp.create (lockPath packedPath)] else []
+  let g1 := g0.steps p0
+  let p1 := prepEditsM m c global g1 txn
+  let g2 := g1.steps p1
+  let c1 := commitUpdatesM m c s g2 txn
+  let g3 := g2.steps c1
+  let c2 := logDeletes g3 txn
+  let g4 := g3.steps c2
+  let c3 := packedCommitM m c s txn
+  let g5 := g4.steps c3
+  let c4 := looseDeletesM m s global g5 txn
+  p0 ++ p1 ++ c1 ++ c2 ++ c3 ++ c4
+
 /-! ### line protocol -/
 
 def parseList (s : String) : List String := if s == "-" then [] else s.splitOn ","
@@ -389,13 +495,18 @@ def supported (s : Store) (txn : List Edit) : Bool :=
   (txn.map Edit.name).eraseDups.length == txn.length
 
 def handle? : List String → Option String
-  | ["steps", l, p, lg, d, e] => do
+  | [op, l, p, lg, d, e] => do
+    let mode ← match op with
+      | "steps" => some Mode.d
+      | "stepsu" => some Mode.u
+      | "stepsr" => some Mode.r
+      | _ => none
     let loose ← (parseList l).mapM parseLoose
     let packed ← if p == "none" then some none else ((parseList p).mapM parsePackedRec).map some
     let s : Store := { loose, packed, logs := (parseList lg).map bytesOfString, dirs := (parseList d).map bytesOfString }
     let txn ← (parseList e).mapM parseEdit
     if !supported s txn then some "unsupported" else
-    let ops := txnSteps driverCfg s txn
+    let ops := if mode = .d then txnSteps driverCfg s txn else txnStepsM mode driverCfg s txn
     some (if ops.isEmpty then "-" else " ".intercalate (ops.map showOp))
   | _ => none
 
